@@ -295,11 +295,72 @@ def run(ctx, report):
     R7 = report.rule('C08.D7', 'the lifted list of a rep-prefixed string instruction reads and writes the count register the address size selects, for every string instruction under F2 or F3 (predicate and count evaluated)', floor=6)
     rep_count_rule(ctx, R7)
 
+    # ---------------------------------------------------------------- D10 MMX/SSE destinations that keep part of their old value
+    R10 = report.rule('C08.D10', 'an MMX/SSE instruction that merges into its destination register (two-operand arithmetic, scalar forms that keep the upper lanes: movss / movsd between '
+                      'registers, sqrtss, cvtss2sd, movlps / movhps loads, ...) reports the destination among its reads, whichever semantic function lifts it', floor=150)
+    sse_merge_rule(ctx, R10, L, sem)
+
     # ---------------------------------------------------------------- D9 kept operand expressions
     R9 = report.rule('C08.D9', 'operand expressions and lifted lists that are kept with an instruction or in a table are computed only from what selects the slot they are kept in '
                      '(the instruction, the key): the segments asked for (segm_to_do) and the other arguments of the lifting call select the answer of every call (shared with C12.D17)', floor=1)
     from .c12 import cache_key_rule
     cache_key_rule(R9, [ctx.mod(n_) for n_ in ('emul_helper', 'ia32_sem', 'ia32_arch', 'ppc_sem', 'ppc_arch') if n_ in __import__('sa.srcmodel', fromlist=['MODULES']).MODULES])
+
+
+SSE_FULL_OVERWRITE = ('mova#ps#', 'mov#qa#', 'movnt#ps#', 'movnt#q#', 'movq', 'mov#d#', 'pshuf#w#', 'cvt#dq2ps', 'cvt#pd2dq', 'round##PD#', 'round##PS#', 'extract##PS#',
+                      'movmskp#S#', 'pmovmskb', '#p#absb', '#p#absd', '#p#absw', '#p#hminposuw', '#p#extrb', '#p#extrd', '#p#extrw', 'maskmov#qu#')
+SSE_SCALAR_MERGE = ('sqrt#ps#', 'rcp#ps#', 'rsqrt#ps#', 'cvt#ps2pd')          # packed under no prefix / 66 (full overwrite), scalar under F3 / F2 (upper lanes kept)
+SSE_NO_VERDICT = ('#p#test', 'comis#s#', 'ucomis#s#', '#p#cmpestri', '#p#cmpestrm', '#p#cmpistri', '#p#cmpistrm', 'cvt#pi2ps', 'cvt#ps2pi', 'cvtt#ps2pi')
+
+
+def sse_merges(rowname, prefix, src_is_reg):
+    """True: the architecture keeps part of the old destination register (it is an input); False: every bit of it is overwritten; None: no verdict here."""
+    scalar = any(p in (0xF3, 0xF2) for p in prefix)
+    if rowname in SSE_NO_VERDICT:
+        return None
+    if rowname == 'mov#ups#':
+        return scalar and src_is_reg           # movss / movsd xmm, xmm keep the upper lanes; from memory they clear them
+    if rowname in SSE_FULL_OVERWRITE or rowname.startswith(('#p#movsx', '#p#movzx')):
+        return False
+    if rowname in SSE_SCALAR_MERGE:
+        return scalar
+    if rowname in ('mov#lps#', 'mov#hps#'):
+        return True                            # one half is loaded, the other kept (movhlps / movlhps between registers as well)
+    return True                                # two-operand arithmetic, logic, compare, pack / unpack, shuffle with two sources, insert, blend, round scalar
+
+
+def sse_merge_rule(ctx, R, L, sem):
+    afs, E = L.X.afs, L.X.env
+    n = 0
+    for inst in L.lift_all():
+        if inst.func is None or inst.unknown or not inst.modifs.get(E['mmx']):
+            continue
+        args = inst.args or []
+        if len(args) < 2 or not isinstance(args[0], Term):
+            continue
+        dst = base_id(args[0])
+        if dst.kind != 'Id' or not dst.name.startswith(('xmm', 'mm')):
+            continue
+        src_is_reg = isinstance(args[1], Term) and base_id(args[1]).kind == 'Id'
+        verdict = sse_merges(inst.rowname, tuple(inst.prefix or ()), src_is_reg)
+        for dec, tmpl in inst.results:
+            if isinstance(tmpl, LiftError) or not isinstance(tmpl, list):
+                continue
+            rid, rmem, wid, wmem = rw_sets(tmpl)
+            n += 1
+            iid = 'sse-dst:' + inst.key()
+            if dst.name in rid:
+                R.ok(iid, nontrivial=(n % 9 == 0), sample='%s: the destination %s is among the reads' % (inst.key(), dst.name))
+            elif verdict is True:
+                R.violation(iid, 'sse-merge:%s:%s' % (inst.rowname, 'scalar' if any(p in (0xF3, 0xF2) for p in inst.prefix or ()) else 'packed'),
+                            '%s (lifted by %s): the processor keeps part of the old value of %s, the lifted semantics do not read it (reads: %s)'
+                            % (inst.key(), inst.func.name, dst.name, ', '.join(sorted(rid)) or 'none'), where(sem, inst.func.node), witness='f3 0f 10 c1 (movss xmm0, xmm1)')
+            elif verdict is False:
+                R.ok(iid, sample='%s overwrites %s entirely' % (inst.key(), dst.name))
+            else:
+                R.note('%s does not read its destination %s: no verdict from the merge table' % (inst.key(), dst.name))
+    if not n:
+        raise AnalysisError('no MMX/SSE form with a register destination among the lifter forms')
 
 
 POPPING_ARITH = ('faddp', 'fsubp', 'fsubrp', 'fmulp', 'fdivp', 'fdivrp')
